@@ -273,7 +273,11 @@ func frameworkGoroutines() (int, []string) {
 			cnt++
 			lines := strings.Split(g, "\n")
 			if len(lines) > 1 {
-				which = append(which, strings.TrimSpace(lines[1]))
+				if os.Getenv("VERIF_FULLSTACK") != "" {
+					which = append(which, g)
+				} else {
+					which = append(which, strings.TrimSpace(lines[1]))
+				}
 			}
 		}
 	}
@@ -661,8 +665,12 @@ func (rn *runner) runLife(id int, s LifeScript, setHook func(*lifeCtl)) {
 	}
 	// wind down: let everything go, wait for the server side to settle, observe
 	ctl.openAll()
-	if lr.inCall != "" {
-		lr.waitCall()
+	// (a call that was abandoned half-way passes its now open gates: wait until it has really returned, or the Stop below
+	// would run concurrently with the second half of a Restart and leave that one's accept loops behind)
+	for i := 0; lr.inCall != "" && i < 200; i++ {
+		if done, _ := lr.waitCall(); !done {
+			time.Sleep(2 * time.Millisecond)
+		}
 	}
 	settle := func() bool {
 		n, _ := frameworkGoroutines()
@@ -686,6 +694,10 @@ func (rn *runner) runLife(id int, s LifeScript, setHook func(*lifeCtl)) {
 		lr.server.Stop()
 	}
 	time.Sleep(2 * time.Millisecond)
+	if os.Getenv("VERIF_FULLSTACK") != "" {
+		n, _ := frameworkGoroutines()
+		fmt.Fprintf(os.Stderr, "after script: phase=%s goroutines=%d prog=%v\n", lr.phase, n, s.Prog)
+	}
 	rn.rec.End()
 }
 
